@@ -34,6 +34,7 @@ def parseOp (ws : List String) : Option Op :=
   | ["complete", s] => some (.complete (nat s))
   | ["rmfab", s, i] => some (.rmfab (nat s) (nat i))
   | ["revoke", s] => some (.revoke (nat s))
+  | ["bcw", s, v] => some (.bcw (nat s) (nat v))
   | ["tick", t] => some (.tick (nat t))
   | ["poll"] => some .poll
   | ["flush"] => some .flush
@@ -42,6 +43,10 @@ def parseOp (ws : List String) : Option Op :=
   | ["kvfail", n] => some (.kvfail (nat n))
   | "corrupt" :: _ => some .corrupt
   | ["freset"] => some .freset
+  | ["hs", f, n, r] => some (.hs (nat f) (nat n) (nat r))
+  | ["hsdone", s] => some (.hsdone (nat s))
+  | ["coldreset"] => some .coldreset
+  | ["fabrecover", i] => some (.fabrecover (nat i))
   | _ => none
 
 structure FabV where
@@ -56,6 +61,7 @@ structure SessV where
   fab : Nat
   peer : Nat
   expired : Bool
+  reserved : Bool := false
 deriving Inhabited
 
 structure ResV where
@@ -97,7 +103,7 @@ def parseFab (e : String) : FabV :=
 def parseSess (e : String) : SessV :=
   match e.splitOn ":" with
   | i :: m :: p :: rest =>
-    { id := nat i, kind := (m.take 1).toString, fab := nat (m.drop 1).toString, peer := nat p, expired := rest.contains "x" }
+    { id := nat i, kind := (m.take 1).toString, fab := nat (m.drop 1).toString, peer := nat p, expired := rest.contains "x", reserved := rest.contains "r" }
   | _ => { id := 0, kind := "?", fab := 0, peer := 0, expired := false }
 
 def parseRes (e : String) : ResV :=
@@ -158,6 +164,9 @@ structure OSt where
   csr1 : Bool := false
   rootC : Bool := false
   nocC : Bool := false
+  /-- a factory reset ran and the node has not restarted yet (`Matter::factory_reset` leaves the
+  session table alone: the sessions of the wiped fabrics are not judged) -/
+  wiped : Bool := false
 deriving Inhabited
 
 def lookupD (l : List (Nat × α)) (k : Nat) (d : α) : α :=
@@ -190,7 +199,7 @@ def diffView (fabs : List FabV) (nets : String) (c : Cmt) (skip : List Nat) : Op
 def viewCmt (v : View) : List (Nat × String) := v.fabs.map (fun (f : FabV) => (f.idx, f.canon))
 
 def restartLike : Op → Bool
-  | .restart | .crash _ | .corrupt => true
+  | .restart | .crash _ | .corrupt | .coldreset | .fabrecover _ => true
   | _ => false
 
 /-- the oracle: returns the new bookkeeping and the violations, each tagged with its property -/
@@ -265,6 +274,11 @@ def oracle (st : OSt) (op : Op) (v : View) : OSt × List String :=
       match v.sess.find? (fun t => t.id = s.id) with
       | some t => if t.expired ≠ s.expired then some s!"C07 other-fabric-session: session {s.id} of fabric {s.fab} changed while fabric {removed} went away" else none
       | none => some s!"C07 other-fabric-session: session {s.id} of fabric {s.fab} disappeared while fabric {removed} went away")
+  -- a session that is usable (not expired, not a handshake still in flight) while its fabric is gone
+  let wiped : Bool := if restartLike op then false else (st.wiped || op == .freset)
+  let v07d := if wiped then [] else
+    (v.sess.filter (fun s => !s.expired && !s.reserved && s.fab ≠ 0 && !present s.fab)).map (fun s =>
+      s!"C07 session-outlives-fabric: session {s.id} ({s.kind}{s.fab}, peer {s.peer}) is usable but fabric index {s.fab} is gone")
   -- 5. C08: the fail-safe context
   let isArmOk : Bool := match op with
     | .arm _ secs => secs ≠ 0 && okS
@@ -373,6 +387,13 @@ def oracle (st : OSt) (op : Op) (v : View) : OSt × List String :=
           | none =>
             ([s!"C11 crash-mismatch: restart from the store after mutation {n}: {(diffView v.fabs v.nets a []).getD ""}"],
              viewCmt v, v.nets, hist', false, [])
+    | .coldreset | .fabrecover _ =>
+      -- a factory reset before / instead of a successful start-up: nothing may be left, whatever the
+      -- node had in memory, and the node must come up (empty)
+      let left := !v.kvFabs.isEmpty || v.kvNets ≠ "none" || v.kvRes ≠ "none" || v.kvOther ≠ "" || !v.fabs.isEmpty
+      ((if left then [s!"C11 factory-reset-leftover: store F{v.kvFabs.map (·.canon)} N[{v.kvNets}] R{v.kvRes} O[{v.kvOther}] node F{v.fabs.map (·.canon)} status {v.status}"]
+        else if v.status ≠ "ok" then [s!"C11 reset-recovery-failed: {v.status}"] else []),
+       [], "-:0", [], false, [])
     | .freset =>
       if okS then
         let left := !v.kvFabs.isEmpty || v.kvNets ≠ "none" || v.kvRes ≠ "none" || v.kvOther ≠ "" || !v.fabs.isEmpty
@@ -383,8 +404,8 @@ def oracle (st : OSt) (op : Op) (v : View) : OSt × List String :=
   let hist := (v.k, (cmtF, cmtN), op == .freset) :: hist
   ({ prev := v, inc := inc, sessBind := sessBind, resBind := resBind, kvResBind := kvResBind,
      cmtF := cmtF, cmtN := cmtN, cmtUnknown := cmtUnknown, dirty := dirty, hist := hist,
-     now := now, deadline := deadline, csr0 := csr0, csr1 := csr1, rootC := rootC, nocC := nocC },
-   v07a ++ v07b ++ v07c ++ v08g ++ v08c ++ v08r ++ v08e ++ v11w ++ v11r)
+     now := now, deadline := deadline, csr0 := csr0, csr1 := csr1, rootC := rootC, nocC := nocC, wiped := wiped },
+   v07a ++ v07b ++ v07c ++ v07d ++ v08g ++ v08c ++ v08r ++ v08e ++ v11w ++ v11r)
 
 /-! ## the driver loop -/
 
